@@ -132,6 +132,9 @@ func RunC11(c *Ctx) error {
 			if hasFlag(fs, "-no_lexer") && !gc.HasSyntax {
 				continue
 			}
+			if c.Tier == "quick" && gc.IR != nil && gc.IR.Big && !(len(fs) == 0 || len(fs) == 1 && fs[0] == "-zip") {
+				continue // seconds per run: the quick tier keeps two flag sets for the big grammar
+			}
 			_ = gc
 			cfgs = append(cfgs, &cfg{gi: gi, flags: flags})
 		}
@@ -203,10 +206,16 @@ func RunC11(c *Ctx) error {
 			s.GOMAXPROCS = []int{1, 4, 16}[r.Intn(3)]
 			jobs = append(jobs, &c11Job{gi: cf.gi, fi: ci, spec: s, kind: "plan", label: label, rerun: rerun})
 		}
+		big := c.Tier == "quick" && gc.IR != nil && gc.IR.Big
 		addPlan("reverse", simrt.MapPlan{Policy: "reverse"}, false)
-		addPlan("rotate", simrt.MapPlan{Policy: "rotate", Seed: r.U64()}, false)
+		if !big {
+			addPlan("rotate", simrt.MapPlan{Policy: "rotate", Seed: r.U64()}, false)
+		}
 		for k := 0; k < nShuffle; k++ {
 			addPlan("shuffle", simrt.MapPlan{Policy: "shuffle", Seed: r.U64()}, k == 0)
+		}
+		if big {
+			continue // no one-site-at-a-time plans for the big grammar in the quick tier
 		}
 		// one site at a time (only sites the reference run reached with >= 2 entries)
 		for _, s := range sites {
